@@ -5,6 +5,8 @@ import ClaripyProofs.Lemmas.FP.IntConv
 import ClaripyProofs.Lemmas.FP.MulF
 import ClaripyProofs.Lemmas.FP.AddF
 import ClaripyProofs.Lemmas.FP.SubDR
+import ClaripyProofs.Lemmas.FP.DivFull
+import ClaripyProofs.Lemmas.FP.SqrtFull
 /-!
 # C02 — IEEE-754 meaning of floating-point folding in every rounding mode
 
@@ -16,9 +18,10 @@ rounding per Python float operation, one more binary32 rounding for FLOAT", roun
 Proved for all operands: for DOUBLE and round-to-nearest-even the fold IS the specification for add, sub, mul, div
 (including the `ZeroDivisionError` branch), sqrt, neg, abs, all comparisons, isNaN/isInf; the generated table is the
 SMT-LIB one and `decimal`'s rounding under it is `roundToIntegral`, so `fpToSBV/fpToUBV` of a DOUBLE give the SMT-LIB value
-wherever it is specified, in all five modes.  FLOAT arithmetic is `…_partial` under the named hypothesis
-`DoubleRoundingInnocuous`.  For the other modes the statement is FALSE on the current code (open findings): negations
-with concrete witnesses below.
+wherever it is specified, in all five modes.  FLOAT arithmetic (one binary64 rounding, then `struct.pack('f')`) is the
+specification under RNE as well, for every operand of add, sub, mul, div, sqrt: the double rounding 53 → 24 bits is
+innocuous (`double_rounding_innocuous_*`, `fold_float_rne`; no hypothesis left).  For the other modes the statement is
+FALSE on the current code (open findings): negations with concrete witnesses below.
 -/
 namespace Claripy.Props.C02
 open Claripy.FP Claripy.FP.Fold
@@ -131,10 +134,15 @@ example : div D .RNE 0 0 = D.nanBits ∧ div D .RNE 0xFFF0000000000000 0 = 0xFFF
 
 /-! ## FLOAT: one binary64 rounding followed by a binary32 rounding -/
 
-/-- "double rounding 53 → 24 is innocuous" for a binary operation (Figueroa 1995).  NOT proved here; validated against
-Z3 on every FLOAT case of every run. -/
+/-- "double rounding 53 → 24 is innocuous" for a binary operation (Figueroa 1995): the operation carried out in binary64 (RNE) on
+the widened operands and rounded again to binary32 (RNE) is the binary32 operation (RNE), for ALL bit patterns.  Proved below for
+add, sub, mul, div (`double_rounding_innocuous_*`); validated against Z3 on every FLOAT case of every run as well. -/
 def DoubleRoundingInnocuous (op : Fmt → RM → Nat → Nat → Nat) : Prop :=
   ∀ a b : Nat, narrow (op D .RNE (widen a) (widen b)) = op F .RNE a b
+
+/-- the same for a unary operation (sqrt) -/
+def DoubleRoundingInnocuous1 (op : Fmt → RM → Nat → Nat) : Prop :=
+  ∀ a : Nat, narrow (op D .RNE (widen a)) = op F .RNE a
 
 /-! ### proved for FLOAT without any hypothesis: everything that does not round, and everything that rounds only once -/
 
@@ -189,18 +197,18 @@ theorem cancel_fptofp_fptobv (f : Fmt) (x p : Nat) (hx : x < 2 ^ f.width)
     · simp [hn] at h
   · exact ⟨fun h' => by rw [hx1] at h'; exact absurd h' (by simp), fun _ => hp⟩
 
-/-- full statement for FLOAT -/
-def fold_float_rne_full : Prop := ∀ a b : Nat, fpAdd F .RNE a b = add F .RNE a b ∧ fpMul F .RNE a b = mul F .RNE a b
+/-- full statement for FLOAT: under RNE the fold of every arithmetic operation is the specification, for all bit patterns -/
+def fold_float_rne_full : Prop :=
+  ∀ a b : Nat, fpAdd F .RNE a b = add F .RNE a b ∧ fpSub F .RNE a b = sub F .RNE a b ∧ fpMul F .RNE a b = mul F .RNE a b ∧
+    fpDiv F .RNE a b = div F .RNE a b ∧ fpSqrt F .RNE a = sqrt F .RNE a
 
 /-- FLOAT MULTIPLICATION, no hypothesis: the binary64 product of two binary32 values is exact (≤ 48 significant bits, exponent
 inside the binary64 range), so the fold rounds once — fold = specification under RNE for every pair of operands -/
 theorem fold_mul_float_rne (a b : Nat) : fpMul F .RNE a b = mul F .RNE a b := fpMul_F .RNE a b
 
-/-- FLOAT ADDITION, proved part: whenever the exact sum of the two binary32 values is itself a binary64 value — in particular
-whenever it has at most 53 significant bits (`sum_representable_of_53_bits`; always true when the operands' exponents differ by
-at most 29) — the Python float addition is exact and the fold rounds once: fold = specification under RNE.
-Missing for the full statement: operands whose exponents are further apart (the binary64 sum is then inexact and the classical
-innocuous-double-rounding argument is needed): `DoubleRoundingInnocuous add`. -/
+/-- FLOAT ADDITION when the exact sum of the two binary32 values is itself a binary64 value — in particular whenever it has at
+most 53 significant bits (`sum_representable_of_53_bits`; always true when the operands' exponents differ by at most 29): the
+Python float addition is exact and the fold rounds once.  (Superseded by `fold_add_float_rne`, kept as the easy half.) -/
 theorem fold_add_float_partial (a b : Nat) (h : SumRepresentable a b) : fpAdd F .RNE a b = add F .RNE a b :=
   fpAdd_F_of_representable .RNE a b h
 
@@ -215,33 +223,75 @@ example : SumRepresentable 0x3F800000 0x35800000 := ⟨0x3FF0000100000000, by de
 theorem round_scale_invariant (f : Fmt) (rm : RM) (neg : Bool) (sc den k : Nat) (hden : 0 < den) (hk : 0 < k) :
     roundScaled f rm neg (sc * k) (den * k) = roundScaled f rm neg sc den := roundScaled_scale f rm neg sc den k hden hk
 
-/-- FLOAT addition still needs the innocuous-double-rounding hypothesis (the binary64 sum of two binary32 values is not exact
-in general); multiplication does not -/
-theorem fold_float_rne_partial (hadd : DoubleRoundingInnocuous add) : fold_float_rne_full := by
+/-- the FLOAT statement follows from the innocuous-double-rounding statements (multiplication needs none: it is exact) -/
+theorem fold_float_rne_partial (hadd : DoubleRoundingInnocuous add) (hsub : DoubleRoundingInnocuous sub)
+    (hdiv : DoubleRoundingInnocuous div) (hsqrt : DoubleRoundingInnocuous1 sqrt) : fold_float_rne_full := by
   intro a b
-  constructor
+  refine ⟨?_, ?_, fold_mul_float_rne a b, ?_, ?_⟩
   · have := hadd a b; unfold fpAdd pyAdd lift lower; simpa using this
-  · exact fold_mul_float_rne a b
+  · have := hsub a b; unfold fpSub pySub lift lower; simpa using this
+  · rw [fpDiv_F_narrow]; exact hdiv a b
+  · rw [fpSqrt_F_narrow]; exact hsqrt a
 
-/-- DOUBLE ROUNDING IS INNOCUOUS FOR ADDITION (Figueroa): the binary64 sum of two binary32 values, rounded again to binary32,
-is the correctly rounded binary32 sum — for every pair of bit patterns (NaN, ±inf, ±0, exact zero sums, subnormals, overflow).
-Proof (`Lemmas/FP/DoubleRound.lean`, `AddDR.lean`): the second rounding can only go wrong if the first lands on the midpoint of two
-adjacent binary32 values without the exact sum being that midpoint; a sum that is not itself a binary64 value has operands whose
-quanta are ≥ 30 binary places apart, so it lies within 2^-6 binary32 ulp of the larger operand and the (monotone) binary64
-rounding cannot carry it to a midpoint. -/
+/-! ### the double rounding is innocuous (Figueroa 1995, `53 ≥ 2·24 + 2`) — proved for the model's definitions, all bit patterns
+
+Common part (`Lemmas/FP/Mono.lean`, `DoubleRound.lean`, `NarrowRound.lean`): rounding is monotone and the identity on
+representable values; binary32 values and the midpoints of adjacent binary32 values are binary64 values; hence the second
+rounding can only go wrong if the first one lands on a binary32 midpoint that the exact result is not (`NoFalseTie`), and that
+is excluded when the exact result keeps a distance of 2^-28 binary32 ulp from the midpoint (`no_false_tie_of_gap`: the
+binary64 values `mid ± 2^-28 ulp` separate).  Signs, zero results, binary32 overflow to infinity and binary32 subnormal results
+(binary64 normals) are inside `narrow_roundS`; NaN / infinity / zero operands are the case analysis of each operation. -/
+
+/-- ADDITION: a sum that is not itself a binary64 value has operands whose quanta are ≥ 30 binary places apart, so it lies within
+2^-6 binary32 ulp of the larger operand — a binary32 value — and cannot be rounded to a midpoint (`AddDR.lean`) -/
 theorem double_rounding_innocuous_add : DoubleRoundingInnocuous add := narrow_add_widen
 
-/-- … and for subtraction (`a - b = a + (-b)` in both formats; widening commutes with negation) -/
+/-- SUBTRACTION: `a - b = a + (-b)` in both formats; widening commutes with negation (`SubDR.lean`) -/
 theorem double_rounding_innocuous_sub : DoubleRoundingInnocuous sub := narrow_sub_widen
+
+/-- MULTIPLICATION: the binary64 product is exact -/
+theorem double_rounding_innocuous_mul : DoubleRoundingInnocuous mul := by
+  intro a b
+  have := fpMul_F .RNE a b
+  unfold fpMul pyMul lift lower at this; simpa using this
+
+/-- DIVISION: `2x - M·2^sh = Δ/den` with `Δ = pa·2^(ka+1) - M·pb·2^(eb+sh)` divisible by a large power of two; a non-zero `Δ` is
+at least `2^-27 · den·2^sh` (`div_gap`, `DivDR.lean`); x/±0, 0/0, ±inf/… as IEEE-754 says (`DivFull.lean`) -/
+theorem double_rounding_innocuous_div : DoubleRoundingInnocuous div := narrow_div_widen
+
+/-- SQUARE ROOT: both formats round the sticky proxy `(2·isqrt(w·4^k) + sticky)/2^(k+1)`, which compares with every half-integer
+like `sqrt w` itself, so the binary32 rounding does not depend on `k` (`round_congr`); `|n - A²|` is divisible by a large power of
+two, which keeps `sqrt n` 2^-28 ulp away from a midpoint `A` (`sqrt_gap`); -0, negative operands, +inf (`SqrtFull.lean`) -/
+theorem double_rounding_innocuous_sqrt : DoubleRoundingInnocuous1 sqrt := narrow_sqrt_widen
 
 /-- FLOAT ADDITION, no hypothesis, every pair of operands: fold = specification under RNE -/
 theorem fold_add_float_rne (a b : Nat) : fpAdd F .RNE a b = add F .RNE a b := fpAdd_F .RNE a b
-
-/-- FLOAT SUBTRACTION, no hypothesis, every pair of operands -/
+/-- FLOAT SUBTRACTION -/
 theorem fold_sub_float_rne (a b : Nat) : fpSub F .RNE a b = sub F .RNE a b := fpSub_F .RNE a b
+/-- FLOAT DIVISION, division by zero included -/
+theorem fold_div_float_rne (a b : Nat) : fpDiv F .RNE a b = div F .RNE a b := fpDiv_F .RNE a b
+/-- FLOAT SQUARE ROOT -/
+theorem fold_sqrt_float_rne (a : Nat) : fpSqrt F .RNE a = sqrt F .RNE a := fpSqrt_F .RNE a
 
-/-- the full FLOAT statement for addition and multiplication, unconditionally -/
-theorem fold_float_rne : fold_float_rne_full := fold_float_rne_partial double_rounding_innocuous_add
+/-- THE FULL FLOAT STATEMENT, unconditionally: under RNE the fold of add, sub, mul, div, sqrt is the specification for all operands -/
+theorem fold_float_rne : fold_float_rne_full :=
+  fold_float_rne_partial double_rounding_innocuous_add double_rounding_innocuous_sub double_rounding_innocuous_div
+    double_rounding_innocuous_sqrt
+
+/-- … and since the rounding-mode argument is ignored, in EVERY mode the FLOAT fold returns the RNE result of the specification
+(this is the exact content of the open findings `C02/<op>/rounding-mode-ignored`: nothing else is wrong with these folds) -/
+theorem fold_float_is_rne_in_every_mode (rm : RM) (a b : Nat) :
+    fpAdd F rm a b = add F .RNE a b ∧ fpSub F rm a b = sub F .RNE a b ∧ fpMul F rm a b = mul F .RNE a b ∧
+    fpDiv F rm a b = div F .RNE a b ∧ fpSqrt F rm a = sqrt F .RNE a :=
+  ⟨fpAdd_F rm a b, fpSub_F rm a b, fpMul_F rm a b, fpDiv_F rm a b, fpSqrt_F rm a⟩
+
+-- non-vacuity / samples where the binary64 result is inexact AND the binary32 rounding is not the truncation:
+-- 1 + 2^-24 + 2^-60-ish operands cannot be written in binary32, so: 1.0f + (2^-24 + 2^-47)f (just above a tie), 1/3, sqrt 2
+example : fpAdd F .RNE 0x3F800000 0x33800001 = 0x3F800001 ∧ add F .RNE 0x3F800000 0x33800001 = 0x3F800001 ∧
+    fpAdd F .RNE 0x3F800000 0x33800000 = 0x3F800000 ∧
+    fpDiv F .RNE 0x3F800000 0x40400000 = 0x3EAAAAAB ∧ div F .RNE 0x3F800000 0x40400000 = 0x3EAAAAAB ∧
+    fpSqrt F .RNE 0x40000000 = 0x3FB504F3 ∧ sqrt F .RNE 0x40000000 = 0x3FB504F3 ∧
+    fpSub F .RNE 0x00000001 0x7F7FFFFF = 0xFF7FFFFF ∧ fpDiv F .RNE 0x00000001 0x7F7FFFFF = 0 := by decide +kernel
 
 /-! ## the statement is false outside RNE (open findings) — witnesses, replayed on the real code -/
 
